@@ -20,6 +20,7 @@ Init == /\ prog = [items |-> <<>>, nested |-> FALSE, ending |-> "return"] /\ sta
         /\ rt = [st |-> <<>>, stack |-> <<>>, left |-> FALSE, waitfor |-> 0, crashed |-> {}, selfended |-> {}, evs |-> <<>>]
         /\ hist = <<>> /\ mon = M!MonInit
 NSvc(items) == Cardinality({i \in DOMAIN items : items[i].kind = "svc"})
+NSvcAll(items) == Cardinality({i \in DOMAIN items : items[i].kind \in {"svc", "svcslow"}})
 AddRes == /\ stage = "gen" /\ Len(prog.items) < MaxItems
           /\ prog' = [prog EXCEPT !.items = Append(@, [kind |-> "res", action |-> "", beh |-> ""])]
           /\ UNCHANGED <<stage, rt, hist, mon>>
@@ -29,7 +30,13 @@ AddRes == /\ stage = "gen" /\ Len(prog.items) < MaxItems
 AddResLate == /\ stage = "gen" /\ Len(prog.items) < MaxItems /\ ~\E i \in DOMAIN prog.items : prog.items[i].kind = "reslate"
               /\ prog' = [prog EXCEPT !.items = Append(@, [kind |-> "reslate", action |-> "", beh |-> ""])]
               /\ UNCHANGED <<stage, rt, hist, mon>>
-AddSvc == /\ stage = "gen" /\ Len(prog.items) < MaxItems /\ NSvc(prog.items) < MaxSvc
+\* a service task whose start handshake is slow (its function calls task_status.started() late): the registration that follows it in the
+\* program - if that is a resource - is made by another task WHILE start_service_task is still waiting, i.e. before the task "was started";
+\* the finalizer is registered when start_service_task returns, after that resource, and so runs before that resource's callback
+AddSvcSlow == /\ stage = "gen" /\ Len(prog.items) < MaxItems /\ NSvcAll(prog.items) < MaxSvc /\ ~\E i \in DOMAIN prog.items : prog.items[i].kind = "svcslow"
+              /\ prog' = [prog EXCEPT !.items = Append(@, [kind |-> "svcslow", action |-> "cancel", beh |-> "forever"])]
+              /\ UNCHANGED <<stage, rt, hist, mon>>
+AddSvc == /\ stage = "gen" /\ Len(prog.items) < MaxItems /\ NSvcAll(prog.items) < MaxSvc
           /\ \E cb \in Combos : prog' = [prog EXCEPT !.items = Append(@, [kind |-> "svc", action |-> cb[1], beh |-> cb[2]])]
           /\ UNCHANGED <<stage, rt, hist, mon>>
 Emit(r, e) == [r EXCEPT !.evs = Append(@, e)]
@@ -37,15 +44,20 @@ Feed(r) == mon' = LET RECURSIVE F(_, _) F(m, i) == IF i > Len(r.evs) THEN m ELSE
 IsRes(it) == it.kind \in {"res", "reslate"}
 ResBefore(i) == {j \in 1..(i - 1) : IsRes(prog'.items[j])}
 \* the block is entered and everything is registered in order; each task starts at once and takes its snapshot
-Start == /\ stage = "gen" /\ NSvc(prog.items) >= 1
+Start == /\ stage = "gen" /\ NSvcAll(prog.items) >= 1
          /\ \E nested \in BOOLEAN, ending \in {"return", "exc"} : prog' = [prog EXCEPT !.nested = nested, !.ending = ending]
-         /\ LET RECURSIVE Reg(_, _)
+         /\ LET Overlaps(i) == prog.items[i].kind = "svcslow" /\ i < Len(prog.items) /\ prog.items[i + 1].kind = "res"
+                Push(r, i) == [r EXCEPT !.stack = Append(@, i)]
+                RECURSIVE Reg(_, _)
                 Reg(r, i) == IF i > Len(prog.items) THEN r
-                             ELSE IF IsRes(prog.items[i]) THEN Reg(Emit(r, [ev |-> "reg", id |-> i]), i + 1)
-                             ELSE Reg(Emit(Emit(r, [ev |-> "svc.start", k |-> i, action |-> prog.items[i].action]),
-                                           [ev |-> "svc.snapshot", k |-> i, vis |-> SetToSeq(ResBefore(i))]), i + 1)
-                r0 == [rt EXCEPT !.st = [i \in 1..(2 * Len(prog.items)) |-> IF i <= Len(prog.items) /\ prog.items[i].kind = "svc" THEN "run" ELSE "res"],
-                                 !.stack = [i \in 1..Len(prog.items) |-> i], !.evs = <<>>]
+                             ELSE IF IsRes(prog.items[i]) THEN Reg(Push(Emit(r, [ev |-> "reg", id |-> i]), i), i + 1)
+                             ELSE IF Overlaps(i) THEN      \* the next resource is registered during the handshake: it comes first
+                                  Reg(Push(Emit(Push(Emit(r, [ev |-> "reg", id |-> i + 1]), i + 1), [ev |-> "svc.start", k |-> i, action |-> prog.items[i].action]), i), i + 2)
+                             ELSE IF prog.items[i].kind = "svcslow" THEN Reg(Push(Emit(r, [ev |-> "svc.start", k |-> i, action |-> prog.items[i].action]), i), i + 1)
+                             ELSE Reg(Push(Emit(Emit(r, [ev |-> "svc.start", k |-> i, action |-> prog.items[i].action]),
+                                                [ev |-> "svc.snapshot", k |-> i, vis |-> SetToSeq(ResBefore(i))]), i), i + 1)
+                r0 == [rt EXCEPT !.st = [i \in 1..(2 * Len(prog.items)) |-> IF i <= Len(prog.items) /\ prog.items[i].kind \in {"svc", "svcslow"} THEN "run" ELSE "res"],
+                                 !.stack = <<>>, !.evs = <<>>]
             IN rt' = Reg(r0, 1)
          /\ stage' = "run" /\ hist' = <<>> /\ Feed(rt')
 \* a task ends: function returns, then its own context is torn down
@@ -81,7 +93,7 @@ CrashDown(r, k) ==
       CancelRest(rr, S) == IF S = {} THEN rr ELSE LET j == CHOOSE j \in S : \A i \in S : j <= i IN CancelRest(CancelTask(rr, j), S \ {j})
       r2 == CancelRest(Emit(r1, [ev |-> "exit.begin", cancelled |-> TRUE]), {j \in DOMAIN r1.st : r1.st[j] = "run"}) IN
   Emit(Emit([r2 EXCEPT !.left = TRUE, !.stack = <<>>, !.waitfor = 0], [ev |-> "exit.end", selfended |-> SetToSeq(r.selfended)]), [ev |-> "root.exit.end", surfaced |-> SetToSeq(r1.crashed)])
-Gated(k) == k \in DOMAIN prog.items /\ prog.items[k].kind = "svc" /\ prog.items[k].beh \in {"gate", "crash"}
+Gated(k) == k \in DOMAIN prog.items /\ prog.items[k].kind \in {"svc", "svcslow"} /\ prog.items[k].beh \in {"gate", "crash"}
 Release(k) ==
   /\ stage = "run" /\ Gated(k) /\ rt.st[k] = "run" /\ (~rt.left) /\ (rt.waitfor \in {0, k}) /\ UNCHANGED <<prog, stage>>
   /\ LET r0 == [rt EXCEPT !.evs = <<>>] IN
@@ -93,7 +105,7 @@ Leave ==
   /\ stage = "run" /\ ~rt.left /\ rt.waitfor = 0 /\ rt.stack # <<>> /\ (\A i \in DOMAIN hist : hist[i] # 0) /\ UNCHANGED <<prog, stage>>
   /\ rt' = Unwind(Emit([rt EXCEPT !.evs = <<>>], [ev |-> "exit.begin", cancelled |-> FALSE]))
   /\ hist' = Append(hist, 0) /\ Feed(rt')
-Next == AddRes \/ AddResLate \/ AddSvc \/ Start \/ Leave \/ \E k \in 1..MaxItems : Release(k)
+Next == AddRes \/ AddResLate \/ AddSvc \/ AddSvcSlow \/ Start \/ Leave \/ \E k \in 1..MaxItems : Release(k)
 Terminal == stage = "run" /\ rt.left
 MonOk == mon.ok
 \* read on the state: when the block has been left no task is running
